@@ -68,6 +68,10 @@ func (lex *LexScanner) ScanFunc(r ybase.Reader) int {
 	}
 
 	if lex.expectSymbol {
+		for r.Peek() == ';' { // comments between `_` and the symbol
+			r.DiscardWhile(func(r rune) bool { return r != '\n' && r != ybase.EOF })
+			r.DiscardWhile(unicode.IsSpace)
+		}
 		if lex.scanSymbol(r) {
 			lex.SetExpectSymbol(false)
 			return SYMBOL
